@@ -159,7 +159,31 @@ let cmd_canon args =
      | Base.Ok w -> "ok " ^ hexn_of_bits w)
   | _ -> failwith "canon"
 
+(* decc <nsub> <hex:nbits> <template> : compressed *)
+let cmd_decc args =
+  match args with
+  | nsub :: bits :: tmpl ->
+    let (t, _) = parse_template tmpl in
+    let b = bits_of_hexn bits in
+    (match DecodeC.decode_compressed t (nat_of_int (int_of_string nsub)) b with
+     | Base.Err e -> err_string e
+     | Base.Ok ((outs, vals), rest) ->
+       "ok " ^ show_subsets vals ^ " " ^ show_outs outs ^ " " ^ string_of_int (SL.length b - SL.length rest))
+  | _ -> failwith "decc"
+
+(* encc <values> <template> : compressed *)
+let cmd_encc args =
+  match args with
+  | vals :: tmpl ->
+    let (t, _) = parse_template tmpl in
+    (match EncodeC.encode_compressed t (parse_subsets vals) with
+     | Base.Err e -> err_string e
+     | Base.Ok (outs, w) -> "ok " ^ hexn_of_bits w ^ " " ^ show_outs outs)
+  | _ -> failwith "encc"
+
 let () =
+  register "decc" cmd_decc;
+  register "encc" cmd_encc;
   register "encg" cmd_encg;
   register "canon" cmd_canon;
   register "decu" cmd_decu;
